@@ -672,6 +672,12 @@ static void run_case(const vh::Case& c, vh::Ctx& ctx) {
     ctx.fail_unless_known(fmt("argsassign-bad-return:%s", p.cc->name), fmt("rsp after return 0x%llx, expected entry 0x%llx + 8 :: %s", (unsigned long long)st.rsp_exit, (unsigned long long)st.rsp_entry, describe(p).c_str()));
 
   // ---- judge ----
+  std::vector<char> in_cycle2(n, 0);
+  for (auto& cy : find_cycles(p, 0))
+    if (cy.second == 2) {
+      in_cycle2[cy.first] = 1;
+      for (size_t j = 0; j < n; j++) if (p.dst[cy.first].kind == 1 && p.fd.arg(j).is_reg() && RegUtils::group_of(p.fd.arg(j).reg_type()) == RegGroup::kGp && p.fd.arg(j).reg_id() == p.dst[cy.first].reg_id && p.dst[j].kind == 1) in_cycle2[j] = 1;
+    }
   bool float_to_stack_present = false;
   for (size_t i = 0; i < n; i++) if (p.dst[i].kind == 2 && TypeUtils::is_float(p.types[i]) && p.fd.arg(i).is_reg()) float_to_stack_present = true;
   for (size_t i = 0; i < n; i++) {
@@ -701,7 +707,11 @@ static void run_case(const vh::Case& c, vh::Ctx& ctx) {
         static const uint8_t zero4[4] = {0, 0, 0, 0};
         bool raw64 = memcmp(got, src, nb) == 0;
         bool raw32 = memcmp(got, src, 4) == 0 && (nb <= 4 || memcmp(got + 4, zero4, 4) == 0);
-        if (raw64 || raw32) key = "argsassign-swap-skips-extension";
+        // only where an exchange can have happened: the argument is a member of a 2-cycle, or an SA-register variable exists
+        // (dynamic alignment without frame pointer / explicit SA register) and the argument actually changes register
+        bool moved = v.reg_id() != d.reg_id;
+        bool sa_var_possible = p.sa_reg >= 0 || (frame.has_dynamic_alignment() && !frame.has_preserved_fp());
+        if ((raw64 || raw32) && moved && (in_cycle2[i] || sa_var_possible)) key = "argsassign-swap-skips-extension";
       }
       if (float_to_stack_present && d.kind == 2) key = "argsassign-float-to-stack-movaps";
       ctx.fail_unless_known(key, fmt("arg %zu (%s): destination holds 0x%s, expected 0x%s (%u bytes, rule %s) :: %s", i, tname(p.types[i]), g.c_str(), x.c_str(), nb, rule, describe(p).c_str()));
